@@ -258,6 +258,9 @@ struct FIter<E: Sh> {
     panic_at: Option<usize>,
     /// what `len()` / `size_hint` claim, relative to the truth
     claim: isize,
+    /// what the second and later `len()` calls claim instead (an iterator whose answers change)
+    claim_later: Option<isize>,
+    len_calls: std::cell::Cell<u32>,
     exact_hint: bool,
     _e: std::marker::PhantomData<E>,
 }
@@ -284,10 +287,28 @@ impl<E: Sh> Iterator for FIter<E> {
         }
     }
 }
-impl<E: Sh> ExactSizeIterator for FIter<E> {}
+impl<E: Sh> ExactSizeIterator for FIter<E> {
+    fn len(&self) -> usize {
+        let n = self.len_calls.get();
+        self.len_calls.set(n + 1);
+        let rest = (self.tags.len() - self.pos) as isize;
+        let claim = match (n, self.claim_later) {
+            (0, _) | (_, None) => self.claim,
+            (_, Some(c)) => c,
+        };
+        (rest + claim).max(0) as usize
+    }
+}
 
 fn fiter<E: Sh>(tags: &[u64], panic_at: Option<usize>, claim: isize, exact_hint: bool) -> FIter<E> {
-    FIter { tags: tags.to_vec(), pos: 0, panic_at, claim, exact_hint, _e: std::marker::PhantomData }
+    // claims of +/-2 and +/-4 stand for "the answer changes": the first len() is honest and later
+    // ones are not, or the other way round
+    let (claim, claim_later) = match claim {
+        2 | -2 => (0, Some(claim / 2)),
+        4 | -4 => (claim / 4, Some(0)),
+        c => (c, None),
+    };
+    FIter { tags: tags.to_vec(), pos: 0, panic_at, claim, claim_later, len_calls: std::cell::Cell::new(0), exact_hint, _e: std::marker::PhantomData }
 }
 
 // ------------------------------------------------------------------------------------------
@@ -454,7 +475,7 @@ fn construct<H: Sh, E: Sh>(r: &mut Rng, stats: &mut [u64; 8], allow: &mut isize)
         0 => (Some(1 + r.below(n as u64 + 1) as usize), 0),
         1 => (None, 1),
         2 => (None, -1),
-        3 => (None, 3),
+        3 => (None, [3, 2, -2, 4, -4][r.below(5) as usize]),
         _ => (None, 0),
     };
     if panic_at.is_some() {
@@ -600,6 +621,25 @@ fn construct<H: Sh, E: Sh>(r: &mut Rng, stats: &mut [u64; 8], allow: &mut isize)
             let a: Arc<[MaybeUninit<E>]> = Arc::new_uninit_slice(n);
             drop(a);
             stats[3] += 1;
+            if !zst && r.below(3) == 0 {
+                // a length whose byte size cannot be represented: refused by a panic before any
+                // allocation, the header given up to the constructor is destroyed
+                let sz = std::mem::size_of::<E>();
+                let huge = [usize::MAX, isize::MAX as usize / sz + 1, usize::MAX / sz, (usize::MAX / sz).wrapping_add(1).max(isize::MAX as usize / sz + 1)][r.below(4) as usize];
+                let l0 = LIVE.load(Ordering::Relaxed);
+                let res = quiet(|| match huge % 3 {
+                    0 => drop(UniqueArc::<HeaderSlice<H, [MaybeUninit<E>]>>::from_header_and_uninit_slice(H::mk(htag), huge)),
+                    1 => drop(Arc::<[MaybeUninit<E>]>::new_uninit_slice(huge)),
+                    _ => drop(UniqueArc::<[MaybeUninit<E>]>::new_uninit_slice(huge)),
+                });
+                if res.is_ok() {
+                    violation("overflow:accepted", format!("a slice of {} elements of {} bytes was accepted", huge, sz));
+                }
+                if LIVE.load(Ordering::Relaxed) != l0 {
+                    violation("leak:identity", format!("refusing a slice of {} elements left the header alive (or destroyed it twice)", huge));
+                }
+                stats[6] += 1;
+            }
             None
         }
     }
